@@ -293,6 +293,11 @@ fn render_line(r: &mut Rng, ts: &[String]) -> String {
         s.push('\t');
     }
     for (i, t) in ts.iter().enumerate() {
+        // now and then the bullet is glued to the first word of the description
+        if i == 1 && ts[0] == BULLET && r.chance(10) {
+            s.push_str(t);
+            continue;
+        }
         if i > 0 {
             match r.below(10) {
                 0 => s.push_str("  "),
@@ -590,7 +595,15 @@ pub fn run_pages(id: &str, pages: &[String], wf: bool, scen: &str, table: Option
     for p in pages {
         writeln!(out, "in pg").unwrap();
         for l in p.lines() {
-            let ts: Vec<&str> = l.split_whitespace().collect();
+            let mut ts: Vec<String> = l.split_whitespace().map(|t| t.to_string()).collect();
+            // the bullet that opens a row may be glued to the first word (`^\s*■\s*(\S.*)`): the model
+            // reads it as a token of its own
+            if let Some(first) = ts.first().cloned() {
+                if first.starts_with(BULLET) && first.len() > BULLET.len() {
+                    ts[0] = BULLET.to_string();
+                    ts.insert(1, first[BULLET.len()..].to_string());
+                }
+            }
             writeln!(out, "in l {}", ts.join(" ")).unwrap();
         }
     }
